@@ -140,6 +140,10 @@ func toStarlark(v V) starlark.Value {
 
 // fromStarlark projects a result; a range result is projected to the list of its elements.
 func fromStarlark(x starlark.Value) V {
+	if x == nil {
+		// a nil element: only a panicking operation can leave one behind
+		return V{T: "float", M: "nil Value"}
+	}
 	switch x := x.(type) {
 	case starlark.NoneType:
 		return vNone()
